@@ -333,6 +333,26 @@ for _pid, _t in EXTRA.items():
     if _pid in CLAIMED:
         CLAIMED[_pid]["text"] = CLAIMED[_pid]["text"] + " " + _t
 
+# fourth session
+_LANG4 = ("Lang.tla / LangGen.tla also cover records (literal, field access, update, field assignment; initialisers run in the "
+          "order they are written), closures handed to named functions and wrapped in further closures next to a captured "
+          "variable, callee expressions with stateful call sites, two output channels")
+EXTRA4 = {
+    "C01": _LANG4 + "; arrays, numeric match and a recursive function are generated too (outside C02's list: back end against back end only).",
+    "C02": _LANG4 + "; the random generator produces records as well.",
+    "C18": _LANG4 + ", arrays, numeric match and a recursive function (the latter three: generated Rust against the VM only), at budgets one rustc run per program allows.",
+    "C16": "Field names are renamed as well (Lang.RenameE and the source transformation); LangGen jobs over records whose initialisers "
+           "assign a shared variable; the record table includes initialisers with side effects (literal, update, parameter pack) and "
+           "record patterns (same / swapped order, annotated result types, global patterns).",
+    "C07": "EditSwap.tla also has saves that carry two edits (delete a voice and insert another elsewhere; delete two voices).",
+    "C10": "Templates whose hole stands inside the binder's own definition (let, function-valued let, letrec that does not call itself).",
+    "C19": "Rounds in which all eight threads are consumers of the compiler's counters (fresh temporaries of the staging translation "
+           "in lets over 16 sibling nested tuple patterns, type variables of many let-polymorphic definitions).",
+}
+for _pid, _t in EXTRA4.items():
+    if _pid in CLAIMED:
+        CLAIMED[_pid]["text"] = CLAIMED[_pid]["text"] + " " + _t
+
 checks = []
 na = []
 for p in props:
